@@ -35,6 +35,16 @@ theorem exact (past : List Op) (hp : ∀ op ∈ past, op.Valid) (m : Bytes) (hm 
   · rw [grun_eq, scanner_default, h1]; rfl
   · rw [feed, scanner_gscanner, h2]; rfl
 
+/-- C08, data independence, for the translated scanner: relabelling the value bytes of every Control Change of the
+    history and of the input by any `f` (into 0..127) relabels the two halves of the reported value, nothing else. -/
+theorem data_independent (f : Nat → Nat) (hf : ∀ v, v < 128 → f v < 128)
+    (past : List Op) (hp : ∀ op ∈ past, op.Valid) (m : Bytes) (hm : m.Valid) :
+    ∃ s s', grun default (past.map (relabelOp f)) = .ok (expected14 [] (past.map (relabelOp f)), s) ∧
+      s.feed rawImpl (relabelB f m) = .ok ((justified14 past m).map fun r =>
+        { r with value := 128 * f (r.value / 128) + f (r.value % 128) }, s') := by
+  rw [← C08.data_independent f past hp m hm]
+  exact exact _ (relabel_valid f hf past hp) _ (relabelB_valid f hf m hm)
+
 /-- C07 for the translated scanner: after ANY history, feeding the two encoded messages reports nothing, then
     exactly the original message -/
 theorem roundtrip (past : List Op) (hp : ∀ op ∈ past, op.Valid) (m : CC14Msg) (hm : m.Valid) :
